@@ -932,6 +932,9 @@ func (proxy *PgProxy) handleParameterDescription(ctx context.Context, packet *Pa
 		}
 		packet.descriptionBuf.Reset()
 		packet.descriptionBuf.Write(newParameterDescription[5:])
+		// the re-encoded message may be shorter than the one read (bytes after the last complete OID are
+		// not kept): declare the length of what is sent
+		packet.updatePacketLength(len(newParameterDescription) - 5)
 	}
 	return nil
 }
@@ -984,6 +987,9 @@ func (proxy *PgProxy) handleRowDescription(ctx context.Context, packet *PacketHa
 		}
 		packet.descriptionBuf.Reset()
 		packet.descriptionBuf.Write(newRowDescription[5:])
+		// the re-encoded message may be shorter than the one read (bytes after the last field are not kept):
+		// declare the length of what is sent
+		packet.updatePacketLength(len(newRowDescription) - 5)
 	}
 	return nil
 }
